@@ -24,6 +24,7 @@ import Gedcom.Lemmas.Ident
 import Gedcom.Lemmas.CopyDoc
 import Gedcom.Lemmas.DateGuard
 import Gedcom.Lemmas.CopySeq
+import Gedcom.Lemmas.FilterDoc
 import Gedcom.Model.EqualSrc
 namespace Gedcom.C07
 open Gedcom
@@ -327,6 +328,48 @@ example :
     r.1.docs.map (fun d => d.nodeByPointer (lit "F1")) = [some 0, some 10] ∧
     r.1.docs.map (·.families) = [[0], [6, 10]] := by decide +kernel
 
+/-! ## `Filter` with a tag filter into another document (round 4) -/
+
+/-- FULL.  `Filter(t, dst, WhitelistTagFilter(…) / BlacklistTagFilter(…))` that returns a node:
+    the result has the value of the source without the subtrees of rejected tags, consists of new
+    objects only and the walk writes only to them; the destination keeps its records and gains
+    exactly one new empty FAM record if the result contains a role node, nothing otherwise; its
+    pointer index and families cache stay coherent.  The source document is not an argument. -/
+theorem filter_into_document (ctx : Option (Nat × Str)) (dst d' : DocSt) (next : Nat)
+    (keep : Str → Bool) (t : INode) (r : CopyDocResult)
+    (h : filterIntoDoc ctx dst next keep t = (.ok r, d')) :
+    pruneNode keep t.erase = some r.copy.erase ∧
+    (∀ i ∈ r.copy.ids, next ≤ i ∧ i < r.next) ∧ (∀ i ∈ r.writes, next ≤ i ∧ i < r.next) ∧
+    r.doc = d'.nodes ∧
+    (∃ added, d'.nodes = dst.nodes ++ added ∧ added.length = r.famAdds.length ∧
+      (added = [] ↔ roleIds r.copy = []) ∧ added.length ≤ 1 ∧
+      ∀ x ∈ added, x.tag = tagFAM ∧ x.value = [] ∧ x.kids = [] ∧ next ≤ x.id ∧ x.id < r.next ∧
+        x.id ∉ r.copy.ids) ∧
+    (dst.coherent → d'.coherent) :=
+  filter_effect ctx dst d' next keep t r h
+
+/-- FULL.  `Filter` returns nil exactly when the root's tag is rejected; the destination is then
+    untouched. -/
+theorem filter_nil_untouched (ctx : Option (Nat × Str)) (dst d' : DocSt) (next : Nat)
+    (keep : Str → Bool) (t : INode) (h : filterIntoDoc ctx dst next keep t = (.nil, d')) :
+    d' = dst ∧ pruneNode keep t.erase = none ∧ keep t.tag = false :=
+  filter_nil ctx dst d' next keep t h
+
+/-- `DeepCopy`'s walk is `Filter`'s walk with the filter that keeps every tag. -/
+theorem deep_copy_is_filter_all (next : Nat) (t : INode) :
+    filterTree (fun _ => true) next t = some (copyTree next t) := filterTree_all next t
+
+/-- a FAM record filtered into an empty document without its NOTE: two role nodes kept, one FAM
+    record added, found under the pointer -/
+example :
+    let fam : INode := .mk 0 (lit "FAM") [] (lit "F1")
+      [.mk 1 (lit "HUSB") (lit "@I1@") [] [], .mk 2 (lit "NOTE") (lit "x") [] [.mk 3 (lit "CHIL") (lit "@I2@") [] []],
+       .mk 4 (lit "WIFE") (lit "@I2@") [] []]
+    let r := filterIntoDoc (ctxOf fam) (DocSt.ofRecords []) 5 (tagFilter false [lit "NOTE"]) fam
+    (match r.1 with | .ok x => some (x.copy.ids, roleIds x.copy, x.famAdds.length) | _ => none) =
+      some ([5, 6, 7], [6, 7], 1) ∧
+    r.2.nodes.map (·.id) = [8] ∧ r.2.nodeByPointer (lit "F1") = some 8 := by decide +kernel
+
 /-! ## the guard, characterised (round 4) -/
 
 /-- EXACT (table level).  `Date.Equals` — the 4×4 table of date.go, which `date_equals_is_the_source`
@@ -335,6 +378,23 @@ example :
     `Years()`.  Every other combination of constraints is symmetric. -/
 theorem date_equals_symm_iff (a b : PDate) :
     a.equals b = b.equals a ↔ a.asymPair b = false := PDate.equals_symm_iff a b
+
+/-- EXACT (table level).  A non-zero date is symmetric against *every* date iff it carries no
+    before / after constraint: each before / after date has a partner (year 1 or year 2 with the
+    same constraint) against which `Date.Equals` answers differently in the two directions.  The
+    plain class of `guard_of_plain` is therefore the largest class of dates that is safe in every
+    company. -/
+theorem symm_against_all_iff_plain (a : PDate) (hz : a.isZero = false) :
+    (∀ b : PDate, a.equals b = b.equals a) ↔ plainPDate a = true :=
+  Gedcom.symm_against_all_iff_plain a hz
+
+/-- `DateNode.Equals` is symmetric on two values unless their start dates or their end dates form
+    an asymmetric pair of `Date.Equals` (the driver reports both bits for `dsym`). -/
+theorem date_node_equals_symm (a b : Str)
+    (hs : (parseDateRange a).start.asymPair (parseDateRange b).start = false)
+    (he : (parseDateRange a).end_.asymPair (parseDateRange b).end_ = false) :
+    dateValueEquals a b = dateValueEquals b a :=
+  dateValueEquals_symm_of_noAsym a b hs he
 
 /-- SUFFICIENT, syntactic.  The guard holds for every set of plain DATE values: values that do not
     parse to a valid range (phrases, unparsable text, zero dates — compared by original string) and
